@@ -240,7 +240,7 @@ package jsonpath
 // (each inner selector, and the union twin, carries the SAME continuation as the multi-name node itself: that is what makes
 // the concatenation of the inner lists the multi-name step followed by the rest of the path; established by setNodeChain)
 //@ spec RLmultiDef(n *syntaxChildMultiIdentifier) bool = RLok(n) ==> (forall k {elemAt(n.identifiers, k)} :: off(n.identifiers) <= k && k < off(n.identifiers) + len(n.identifiers) ==> RLok(elemAt(n.identifiers, k)) && basicOf(elemAt(n.identifiers, k)).next == n.syntaxBasicNode.next) && (n.isAllWildcard ==> RLok(n.unionQualifier) && n.unionQualifier.syntaxBasicNode.next == n.syntaxBasicNode.next) && (forall r Val, c Val {RLn(n, r, c)} :: RLn(n, r, c) == (isType(c, map[string]interface{}) ? sumXof(r, c, n.identifiers, len(n.identifiers)) : ((n.isAllWildcard && isType(c, []interface{})) ? RLn(n.unionQualifier, r, c) : 0))) && (forall r Val, c Val, x {RLv(n, r, c, x)} :: 0 <= x && x < RLn(n, r, c) ==> RLv(n, r, c, x) == (isType(c, map[string]interface{}) ? RLv(A_Val[arr(n.identifiers)][idxOf(off(n.identifiers), segXof(r, c, n.identifiers, x))], r, c, x - sumXof(r, c, n.identifiers, segXof(r, c, n.identifiers, x))) : RLv(n.unionQualifier, r, c, x)))
-//@ spec WFmultiDef(n *syntaxChildMultiIdentifier) bool = RLmultiDef(n) && n != nil && height(n) == hgt(n.syntaxBasicNode) && WFbasic(n.syntaxBasicNode) && errRT(n.syntaxBasicNode) && wf(n.identifiers) && (arr(n.identifiers) == 0 || RO(n.identifiers)) && (forall k {elemAt(n.identifiers, k)} :: off(n.identifiers) <= k && k < off(n.identifiers) + len(n.identifiers) ==> elemAt(n.identifiers, k) != nil && WFnode(elemAt(n.identifiers, k)) && height(elemAt(n.identifiers, k)) < height(n) && (isType(elemAt(n.identifiers, k), *syntaxChildSingleIdentifier) ==> asType(elemAt(n.identifiers, k), *syntaxChildSingleIdentifier) != nil && RLsingleDef(asType(elemAt(n.identifiers, k), *syntaxChildSingleIdentifier)))) && (n.isAllWildcard ==> WFunionAt(n.unionQualifier) && WFnode(n.unionQualifier) && height(n.unionQualifier) < height(n)) && !chainSingle(n)
+//@ spec WFmultiDef(n *syntaxChildMultiIdentifier) bool = RLmultiDef(n) && n != nil && height(n) == hgt(n.syntaxBasicNode) && WFbasic(n.syntaxBasicNode) && errRT(n.syntaxBasicNode) && wf(n.identifiers) && (arr(n.identifiers) == 0 || RO(n.identifiers)) && (forall k {elemAt(n.identifiers, k)} :: off(n.identifiers) <= k && k < off(n.identifiers) + len(n.identifiers) ==> elemAt(n.identifiers, k) != nil && WFnode(elemAt(n.identifiers, k)) && height(elemAt(n.identifiers, k)) < height(n) && (isType(elemAt(n.identifiers, k), *syntaxChildSingleIdentifier) ==> asType(elemAt(n.identifiers, k), *syntaxChildSingleIdentifier) != nil && RLsingleDef(asType(elemAt(n.identifiers, k), *syntaxChildSingleIdentifier))) && (!isType(elemAt(n.identifiers, k), *syntaxChildSingleIdentifier) ==> isType(elemAt(n.identifiers, k), *syntaxChildWildcardIdentifier) && asType(elemAt(n.identifiers, k), *syntaxChildWildcardIdentifier) != nil && RLwildcardDef(asType(elemAt(n.identifiers, k), *syntaxChildWildcardIdentifier)))) && (n.isAllWildcard ==> WFunionAt(n.unionQualifier) && WFnode(n.unionQualifier) && height(n.unionQualifier) < height(n)) && !chainSingle(n)
 // Recursive descent: every container of the subtree of the current value, pre-order (object members in ascending key
 // order, array elements in index order), gets the following step applied (objects only if that step can apply to an object,
 // arrays likewise).  DN(n, r, v): how many results the subtree of v contributes; CSm / CSl(.., t): the part contributed by
